@@ -13,6 +13,10 @@ xgi's own converters):
   pairwise intersections    -> to_line_graph(s, weights)
   incidence list            -> to_bipartite_graph(index=True) (direction for DiHypergraph)
   subset relation           -> to_encapsulation_dag: "all" and "immediate" exactly, "empirical" sandwiched
+
+Besides fresh objects (kinds random / directed) the kind `sequence` asks the same questions repeatedly of one object
+that is edited in place in between (keys "<function>|same-object-after-edit|value-stale-or-wrong" and
+"<function>|second-call-without-edit|differs-from-first-call").
 """
 import math
 from itertools import combinations
@@ -35,7 +39,9 @@ ANCHORS = (
 RULE = (
     "case = one seeded network built through add_node(s)/add_edge (<= 8 nodes, <= 10 edges, sizes 0-5; shapes sparse / dense / blocks / chain / nested / "
     "multi-edge; isolated nodes, singletons, int / gapped-int / str node labels, automatic / explicit edge IDs); kind 'random' = Hypergraph, all functions; "
-    "kind 'directed' = DiHypergraph, to_bipartite_graph only. one evaluation = one xgi return value compared with the independent construction. "
+    "kind 'directed' = DiHypergraph, to_bipartite_graph only. kind 'sequence': ONE network object (80% Hypergraph, 20% DiHypergraph) is queried with every function, queried again "
+    "without an edit, then edited in place 2-4 times through the public API (add_node_to_edge / remove_node_from_edge(remove_empty=False) / remove_edge+add_edge(idx=same id) / "
+    "double_edge_swap keep the node- and edge-ID sets; add/remove edge, add/remove node change them) and queried again after every edit against graphs built from the CURRENT members(). one evaluation = one xgi return value compared with the independent construction. "
     "distinct_nontrivial = distinct (class, node order, members) with at least one edge of size >= 2"
 )
 ASSUMPTIONS = [
@@ -45,7 +51,8 @@ ASSUMPTIONS = [
     "to_encapsulation_dag(subset_types='empirical') is only required to satisfy immediate <= empirical <= all (its sequential filter is order dependent and not pinned by the docstring)",
     "weights=None: absence of a 'weight' attribute is not demanded; node/edge attributes of the returned graphs are not compared except 'bipartite' (0 node / 1 edge) and 'weight'",
     "clustering coefficients are compared with tolerance 1e-9, normalized line-graph weights with 1e-12; distances exactly",
-    "start states that fail the C01/C02 structural invariant are discarded and counted",
+    "start states that fail the C01/C02 structural invariant are discarded and counted; a sequence stops when an edit leaves such a state (none observed)",
+    "sequence kind: a return value may depend only on the current incidence structure, not on what was asked of the same object before; a sequence ends at the first monitor that fires",
 ]
 TECHNIQUE = "runtime monitoring: differential post-conditions against networkx on independently built expansion graphs"
 CASE_TIMEOUT = 60
@@ -58,8 +65,8 @@ INF = float("inf")
 
 def plan(tier):
     if tier == "quick":
-        return {"random": 6000, "directed": 1200}
-    return {"random": 320000, "directed": 64000}
+        return {"random": 4500, "directed": 1200, "sequence": 1000}
+    return {"random": 320000, "directed": 64000, "sequence": 64000}
 
 
 def floors(tier):
@@ -80,7 +87,16 @@ def floors(tier):
     for sh in SHAPES:
         f[f"shape:{sh}"] = 100
     scale = plan(tier)["random"] // 1500
-    return {k: v * scale for k, v in f.items()}
+    f = {k: v * scale for k, v in f.items()}
+    seq = {  # minima per 500 sequences (about 0.65 x the smallest value observed over seeds 0..4)
+        "seq:class:Hypergraph": 250, "seq:class:DiHypergraph": 60, "seq:second-call-evaluations": 700, "seq:evaluations-after-edit": 1000,
+        "seq:members-changed-with-same-id-sets": 550, "seq:components-changed-with-same-id-sets": 150, "seq:id-sets-changed": 300,
+        "seq:edit:add_node_to_edge": 200, "seq:edit:remove_node_from_edge": 130, "seq:edit:replace_edge": 200, "seq:edit:double_edge_swap": 60,
+        "seq:edit:add_edge": 90, "seq:edit:remove_edge": 95, "seq:edit:add_node": 30, "seq:edit:remove_node": 65,
+    }
+    sscale = plan(tier)["sequence"] // 500
+    f.update({k: v * sscale for k, v in seq.items()})
+    return f
 
 
 # ---------------------------------------------------------------------------------
@@ -173,7 +189,7 @@ def build_hypergraph(rng, mon):
     mon.note(f"shape:{shape}")
     mon.note(f"in:labels:{nkind}")
     mon.note("in:explicit-ids" if explicit else "in:auto-ids")
-    return H, "H = xgi.Hypergraph(); " + "; ".join(steps)
+    return H, "H = xgi.Hypergraph(); " + "; ".join(steps), {"pool": pool, "explicit": explicit, "epool": epool}
 
 
 def build_dihypergraph(rng, mon):
@@ -201,7 +217,7 @@ def build_dihypergraph(rng, mon):
         D.add_node(pool[0])
         steps.append(f"D.add_node({pool[0]!r})")
     mon.note(f"in:labels:{nkind}")
-    return D, "D = xgi.DiHypergraph(); " + "; ".join(steps)
+    return D, "D = xgi.DiHypergraph(); " + "; ".join(steps), {"pool": pool, "explicit": explicit, "epool": epool}
 
 
 # ---------------------------------------------------------------------------------
@@ -245,9 +261,12 @@ def _same_num(a, b):
 # ---------------------------------------------------------------------------------
 # monitors
 # ---------------------------------------------------------------------------------
+PHASE_CLAUSE = {"same-object-after-edit": "value-stale-or-wrong", "second-call-without-edit": "differs-from-first-call"}
+
+
 class Ctx:
-    def __init__(self, mon, H, how):
-        self.mon, self.H, self.how = mon, H, how
+    def __init__(self, mon, H, how, phase=None):
+        self.mon, self.H, self.how, self.phase, self.fired = mon, H, how, phase, 0
         self.nodes = list(H.nodes)
         if snap.is_di(H):
             self.members = {e: (frozenset(t), frozenset(h)) for e, (t, h) in H.edges.dimembers(dtype=dict).items()}
@@ -257,7 +276,12 @@ class Ctx:
             self.shown = {e: _srt(m) for e, m in self.members.items()}
 
     def fail(self, fn, trig, clause, what):
-        self.mon.fail(f"{fn}|{trig}|{clause}", f"{fn}: {what}", f"import xgi; {self.how}\n# nodes={self.nodes!r}\n# members={self.shown!r}")
+        self.fired += 1
+        if self.phase:  # sequence kind: the object was queried before (and edited in place since, or not)
+            key, what = f"{fn}|{self.phase}|{PHASE_CLAUSE[self.phase]}", f"[{self.phase}; {trig}: {clause}] {what}"
+        else:
+            key = f"{fn}|{trig}|{clause}"
+        self.mon.fail(key, f"{fn}: {what}", f"import xgi; {self.how}\n# current nodes={self.nodes!r}\n# current members={self.shown!r}")
         return False
 
 
@@ -561,43 +585,33 @@ def check_encapsulation(c):
 
 
 # ---------------------------------------------------------------------------------
-def run_case(mon, kind, idx, rng):
-    if kind == "directed":
-        D, how = build_dihypergraph(rng, mon)
-        if snap.inv(D):
-            mon.note("discarded-invalid-input")
-            return
-        c = Ctx(mon, D, how)
-        check_bipartite(c, D, "DiHypergraph")
-        if any(t or h for t, h in c.members.values()):
+def evaluate(mon, net, how, rng, phase=None, fresh=True):
+    """Every function of the property on the CURRENT state of `net`; returns the number of monitors that fired."""
+    c = Ctx(mon, net, how, phase)
+    if snap.is_di(net):
+        check_bipartite(c, net, "DiHypergraph")
+        if fresh and any(t or h for t, h in c.members.values()):
             mon.nontrivial(("D", tuple(c.nodes), tuple(sorted(((repr(e), _srt(t), _srt(h)) for e, (t, h) in c.members.items())))))
-        mon.sample(how)
-        return
-
-    H, how = build_hypergraph(rng, mon)
-    if snap.inv(H):
-        mon.note("discarded-invalid-input")
-        return
-    c = Ctx(mon, H, how)
+        return c.fired
+    H = net
     mem = c.members
     part = bipartite_partition(c.nodes, mem)
     G = clique_expansion(c.nodes, mem)
     has_empty = any(len(m) == 0 for m in mem.values())
-    # input classes actually produced
     trig = "edgeless" if G.number_of_edges() == 0 else ("connected" if len(part) == 1 else "disconnected")
-    mon.note("in:connected" if len(part) == 1 else "in:disconnected")
-    covered = set().union(*mem.values()) if mem else set()
-    if set(c.nodes) - covered:
-        mon.note("in:isolated-nodes")
-    if any(len(m) == 1 for m in mem.values()):
-        mon.note("in:singleton-edges")
-    if len(set(mem.values())) < len(mem):
-        mon.note("in:multi-edges")
-    if any(a < b for a in mem.values() for b in mem.values()):
-        mon.note("in:nested-edges")
-    if has_empty:
-        mon.note("in:empty-edge")
-
+    if fresh:  # input classes actually produced
+        mon.note("in:connected" if len(part) == 1 else "in:disconnected")
+        covered = set().union(*mem.values()) if mem else set()
+        if set(c.nodes) - covered:
+            mon.note("in:isolated-nodes")
+        if any(len(m) == 1 for m in mem.values()):
+            mon.note("in:singleton-edges")
+        if len(set(mem.values())) < len(mem):
+            mon.note("in:multi-edges")
+        if any(a < b for a in mem.values() for b in mem.values()):
+            mon.note("in:nested-edges")
+        if has_empty:
+            mon.note("in:empty-edge")
     check_components(c, part, trig)
     check_shortest_paths(c, G, part, trig)
     check_clustering(c, G, trig)
@@ -606,6 +620,145 @@ def run_case(mon, kind, idx, rng):
     check_bipartite(c, H, "Hypergraph")
     if not has_empty:
         check_encapsulation(c)
-    if any(len(m) >= 2 for m in mem.values()):
+    if fresh and any(len(m) >= 2 for m in mem.values()):
         mon.nontrivial(("H", tuple(map(repr, c.nodes)), tuple(sorted((repr(e), tuple(_srt(m))) for e, m in mem.items()))))
+    return c.fired
+
+
+# ---------------------------------------------------------------------------------
+# sequences on ONE network object: evaluate, edit in place, evaluate again
+# ---------------------------------------------------------------------------------
+ID_PRESERVING = ("add_node_to_edge", "remove_node_from_edge", "replace_edge", "double_edge_swap")
+ID_CHANGING = ("add_edge", "remove_edge", "add_node", "remove_node")
+
+
+def _propose_edit(rng, net, info):
+    """One in-place edit through the public API: (name, text, thunk) or None.  All results stay inside the statement's
+    input space (multi-edges, singletons, empty edges, isolated nodes are allowed; at least one node is kept)."""
+    di = snap.is_di(net)
+    pool, explicit, epool = info["pool"], info["explicit"], info["epool"]
+    nodes, eids = list(net.nodes), list(net.edges)
+    mem = net.edges.members(dtype=dict)
+    v = "D" if di else "H"
+    for _ in range(12):
+        name = rng.choice(ID_PRESERVING) if rng.random() < 0.7 else rng.choice(ID_CHANGING)
+        if name == "add_node_to_edge" and eids:
+            e, n = rng.choice(eids), rng.choice(nodes)
+            if di:
+                d = rng.choice(("in", "out"))
+                return name, f"D.add_node_to_edge({e!r}, {n!r}, {d!r})", (lambda: net.add_node_to_edge(e, n, d))
+            return name, f"H.add_node_to_edge({e!r}, {n!r})", (lambda: net.add_node_to_edge(e, n))
+        if name == "remove_node_from_edge" and eids and not di:
+            e = rng.choice(eids)
+            if not mem[e]:
+                continue
+            n = rng.choice(_srt(mem[e]))
+            if len(mem[e]) >= 2 and rng.random() < 0.4:
+                return name, f"H.remove_node_from_edge({e!r}, {n!r})", (lambda: net.remove_node_from_edge(e, n))
+            return name, f"H.remove_node_from_edge({e!r}, {n!r}, remove_empty=False)", (lambda: net.remove_node_from_edge(e, n, remove_empty=False))
+        if name == "replace_edge" and eids:
+            e = rng.choice(eids)
+            if di:
+                new = (ops.rand_members(rng, nodes, 0, 3), ops.rand_members(rng, nodes, 0, 3))
+            else:
+                new = ops.rand_members(rng, nodes, 1, min(5, len(nodes)))
+
+            def thunk():
+                net.remove_edge(e)
+                net.add_edge(new if di else list(new), idx=e)
+            return name, f"{v}.remove_edge({e!r}); {v}.add_edge({new!r}, idx={e!r})", thunk
+        if name == "double_edge_swap" and len(eids) >= 2 and not di:
+            e1, e2 = rng.sample(eids, 2)
+            c1, c2 = _srt(set(mem[e1]) - set(mem[e2])), _srt(set(mem[e2]) - set(mem[e1]))
+            if not c1 or not c2:
+                continue
+            n1, n2 = rng.choice(c1), rng.choice(c2)
+            return name, f"H.double_edge_swap({n1!r}, {n2!r}, {e1!r}, {e2!r})", (lambda: net.double_edge_swap(n1, n2, e1, e2))
+        if name == "add_edge" and len(eids) < 10:
+            new = (ops.rand_members(rng, pool, 0, 3), ops.rand_members(rng, pool, 0, 3)) if di else ops.rand_members(rng, pool, 1, 4)
+            if explicit:
+                free = [x for x in epool if x not in eids]
+                if not free:
+                    continue
+                i = rng.choice(free)
+                return name, f"{v}.add_edge({new!r}, idx={i!r})", (lambda: net.add_edge(new, idx=i))
+            return name, f"{v}.add_edge({new!r})", (lambda: net.add_edge(new))
+        if name == "remove_edge" and eids:
+            e = rng.choice(eids)
+            return name, f"{v}.remove_edge({e!r})", (lambda: net.remove_edge(e))
+        if name == "add_node":
+            cand = [n for n in pool if n not in nodes]
+            if not cand:
+                continue
+            n = rng.choice(cand)
+            return name, f"{v}.add_node({n!r})", (lambda: net.add_node(n))
+        if name == "remove_node" and len(nodes) >= 2 and not di:
+            n = rng.choice(nodes)
+            strong = rng.random() < 0.3
+            return name, f"H.remove_node({n!r}, strong={strong})", (lambda: net.remove_node(n, strong=strong))
+    return None
+
+
+def _structure(net):
+    if snap.is_di(net):
+        return {e: (frozenset(t), frozenset(h)) for e, (t, h) in net.edges.dimembers(dtype=dict).items()}
+    return {e: frozenset(m) for e, m in net.edges.members(dtype=dict).items()}
+
+
+def run_sequence(mon, rng):
+    di = rng.random() < 0.2
+    net, how, info = (build_dihypergraph if di else build_hypergraph)(rng, mon)
+    if snap.inv(net):
+        mon.note("discarded-invalid-input")
+        return
+    cls = "DiHypergraph" if di else "Hypergraph"
+    mon.note(f"seq:class:{cls}")
+    called = "<all functions called on D>" if di else "<all functions called on H>"
+    if evaluate(mon, net, how, rng):
+        return
+    mon.note("seq:second-call-evaluations")
+    if evaluate(mon, net, how + f"\n{called}", rng, phase="second-call-without-edit", fresh=False):
+        return
+    for step in range(rng.randint(2, 4)):
+        ed = _propose_edit(rng, net, info)
+        if ed is None:
+            mon.note("seq:no-admissible-edit")
+            break
+        name, text, thunk = ed
+        before = _structure(net)
+        ids_before = (frozenset(net.nodes), frozenset(before))
+        part_before = None if di else bipartite_partition(list(net.nodes), before)
+        thunk()
+        how = how + f"\n{called}; {text}"
+        if snap.inv(net) or net.num_nodes == 0:
+            mon.note("seq:invalid-state-after-edit")  # not C14's business (C01/C02/C05): stop here
+            return
+        after = _structure(net)
+        mon.note(f"seq:edit:{name}")
+        if ids_before == (frozenset(net.nodes), frozenset(after)):
+            if after != before:
+                mon.note("seq:members-changed-with-same-id-sets")
+                if not di and bipartite_partition(list(net.nodes), after) != part_before:
+                    mon.note("seq:components-changed-with-same-id-sets")
+        else:
+            mon.note("seq:id-sets-changed")
+        mon.note("seq:evaluations-after-edit")
+        if evaluate(mon, net, how, rng, phase="same-object-after-edit", fresh=False):
+            return
+        if rng.random() < 0.4:
+            mon.note("seq:second-call-evaluations")
+            if evaluate(mon, net, how + f"\n{called}", rng, phase="second-call-without-edit", fresh=False):
+                return
+    mon.nontrivial(("seq", how))
+    mon.sample(how)
+
+
+def run_case(mon, kind, idx, rng):
+    if kind == "sequence":
+        return run_sequence(mon, rng)
+    net, how, _ = (build_dihypergraph if kind == "directed" else build_hypergraph)(rng, mon)
+    if snap.inv(net):
+        mon.note("discarded-invalid-input")
+        return
+    evaluate(mon, net, how, rng)
     mon.sample(how)
